@@ -580,6 +580,10 @@ def _variants_of(draw, text):
     cands = [text + 'x', text[:-1], text + '\n', text + '\nzz', text + 'zz\n', text + '\n\n',
              model.universal(text), '\n'.join(text.splitlines()),
              ''.join(_splitlines(text)[:-1]), text.replace('\r', ''), text.swapcase()]
+    # same length, other characters (a comparison by size would not see the difference)
+    if text:
+        cands += [text[:-1] + ('#' if text[-1] != '#' else '%'), ('#' if text[0] != '#' else '%') + text[1:],
+                  text[::-1], text.swapcase()]
     cands = [c for c in cands if c != text]
     if not cands:
         return text + 'x'
